@@ -77,6 +77,7 @@ var families = []struct {
 	{"ulimits", genUlimits},
 	{"command", genCommands},
 	{"context", genContext},
+	{"context-more", genContextMore},
 	{"reject", genRejects},
 }
 
